@@ -233,7 +233,8 @@ def classify(prop, case, reason, known):
 def write_evidence(prop, tier, seed, coverage, wall, violations, assumptions, level="model_checking"):
     ev = dict(property_id=prop, tier=tier, seed=seed, level=level, coverage=coverage,
               assumptions=assumptions, wall_s=round(wall, 2), violations=violations)
-    path = os.path.join(ROOT, "evidence", prop + ".json")
+    # growth families (Gxx) are not listed properties: their evidence is kept apart from /verif/evidence
+    path = os.path.join(ROOT, "evidence" if not prop.startswith("G") else "evidence_growth", prop + ".json")
     os.makedirs(os.path.dirname(path), exist_ok=True)
     with open(path, "w") as f:
         json.dump(ev, f, indent=1)
